@@ -48,27 +48,30 @@ theorem C15_at_limit (mh : Nat) (peers : List Node) (self frm clock : Nat) (a : 
       · rfl
       · rw [if_pos ⟨hmh, by omega⟩]
 
+/-- Every agent enforces ITS OWN limit (agents of one mesh may be configured differently): what an
+    agent with limit `h > 0` stores has a path of at most `h` agents, and so has everything it sends. -/
 structure Inv (s : Net) : Prop where
-  entries : ∀ x e, e ∈ (s.nodes x).entries → e.path.length ≤ s.maxHops
-  flight : ∀ f, f ∈ s.flight → (f.adv.wd = true → f.adv.path = []) ∧ f.adv.path.length ≤ s.maxHops
+  entries : ∀ x e, e ∈ (s.nodes x).entries → s.maxHops x > 0 → e.path.length ≤ s.maxHops x
+  flight : ∀ f, f ∈ s.flight → (f.adv.wd = true → f.adv.path = []) ∧
+    (s.maxHops f.src > 0 → f.adv.path.length ≤ s.maxHops f.src)
 
-theorem inv_init (n mh : Nat) (L : Node → List RAd) : Inv (init n mh L) where
+theorem inv_initH (n : Nat) (mh : Node → Nat) (L : Node → List RAd) : Inv (initH n mh L) where
   entries := by
-    intro x e he
+    intro x e he _
     rw [(initNode_entries x (L x) e he).1]
     exact Nat.zero_le _
-  flight := by intro f hf; simp [init] at hf
+  flight := by intro f hf; simp [initH] at hf
 
 theorem hopCap_le {mh : Nat} (h : mh > 0) : hopCap mh ≤ mh := by
   unfold hopCap maxWireAgents
   split <;> omega
 
-theorem inv_step {s : Net} {op : Op} (hmh : s.maxHops > 0) (hI : Inv s) : Inv (step s op) where
+theorem inv_step {s : Net} {op : Op} (hI : Inv s) : Inv (step s op) where
   entries := by
-    intro x e he
-    rw [step_maxHops]
+    intro x e he hmh
+    rw [step_maxHops] at hmh ⊢
     rcases entries_step he with h | ⟨a, m, hm, _, _, _, _, hacc, _, r, _, rfl⟩
-    · exact hI.entries x e h
+    · exact hI.entries x e h hmh
     · have hlim := hacc.2.2
       simp only [tick_maxHops, hopsOf, gt_iff_lt, not_and, Nat.not_lt] at hlim
       have := hlim hmh
@@ -83,19 +86,19 @@ theorem inv_step {s : Net} {op : Op} (hmh : s.maxHops > 0) (hI : Inv s) : Inv (s
     | old h => exact hI.flight f h
     | ann hint hop ha hd hadv =>
       have h := mem_announceAdvs hadv
-      exact ⟨(fun hw => by rw [h.wd] at hw; cases hw), by rw [h.path]; simp; omega⟩
+      exact ⟨(fun hw => by rw [h.wd] at hw; cases hw), fun hmh => by rw [h.path]; simp; omega⟩
     | wdr hint hop ha hcidr hd hadv =>
       have h := mem_withdrawAdvs hadv
-      exact ⟨(fun _ => h.path), by rw [h.path]; simp⟩
+      exact ⟨(fun _ => h.path), fun _ => by rw [h.path]; simp⟩
     | fwd a m hm hl ha hb hd hne hns hself hseen hsb hlim hwire hadv =>
       rw [hadv]
       obtain ⟨hwp, _⟩ := hI.flight _ hm
       cases hwd : m.wd with
       | true =>
-        refine ⟨(fun _ => by rw [fwdAdv_path_wd hwd]; exact hwp hwd), ?_⟩
+        refine ⟨(fun _ => by rw [fwdAdv_path_wd hwd]; exact hwp hwd), fun _ => ?_⟩
         rw [fwdAdv_path_wd hwd, hwp hwd]; simp
       | false =>
-        refine ⟨(fun h => by rw [fwdAdv_wd, hwd] at h; cases h), ?_⟩
+        refine ⟨(fun h => by rw [fwdAdv_wd, hwd] at h; cases h), fun hmh => ?_⟩
         have hlim' := hlim hwd
         simp only [tick_maxHops, hopsOf, ge_iff_le, not_and, Nat.not_le] at hlim'
         have := hlim' hmh
@@ -104,15 +107,34 @@ theorem inv_step {s : Net} {op : Op} (hmh : s.maxHops > 0) (hI : Inv s) : Inv (s
         split at this <;> omega
     | rep ord hop ha hb hl hadv =>
       have h := mem_replayAdvs hadv
-      refine ⟨(fun hw => by rw [h.wd] at hw; cases hw), ?_⟩
+      refine ⟨(fun hw => by rw [h.wd] at hw; cases hw), fun hmh => ?_⟩
       have := h.plen
       have := hopCap_le hmh
       simp only [tick_maxHops] at *
       omega
 
-/-- C15: with a configured limit `maxHops ≥ 1`, in every reachable state no agent holds a route
-    whose path is longer than the limit, and no frame in flight — forwarded copy, fresh announcement
-    or table replay — carries a path of more than `maxHops` agents. -/
+/-- C15 for a mesh in which every agent has its own `routing.max_hops` (0 = none): in every
+    reachable state an agent with limit `h ≥ 1` holds no route — CIDR, domain, forward or agent
+    presence — whose path is longer than `h`, and no frame it sent (forwarded copy, announcement,
+    table replay) carries one. In particular an agent that is handed an advertisement from beyond
+    ITS limit by a neighbour with a larger limit stores nothing of it (`C15_beyond`). -/
+theorem C15_holds_mixed (n : Nat) (mh : Node → Nat) (L : Node → List RAd) (ops : List Op) :
+    (∀ x e, e ∈ ((run (initH n mh L) ops).nodes x).entries → mh x > 0 → e.path.length ≤ mh x) ∧
+    (∀ f, f ∈ (run (initH n mh L) ops).flight → mh f.src > 0 → f.adv.path.length ≤ mh f.src) := by
+  have hI : Inv (run (initH n mh L) ops) :=
+    run_induction (P := Inv) _ ops (inv_initH n mh L) (fun _ _ h => inv_step h)
+  have hm : (run (initH n mh L) ops).maxHops = mh := run_maxHops _ _
+  constructor
+  · intro x e he hx
+    have := hI.entries x e he (by rw [hm]; exact hx)
+    rw [hm] at this; exact this
+  · intro f hf hx
+    have := (hI.flight f hf).2 (by rw [hm]; exact hx)
+    rw [hm] at this; exact this
+
+/-- C15: with one configured limit `maxHops ≥ 1` for the whole mesh, in every reachable state no
+    agent holds a route whose path is longer than the limit, and no frame in flight — forwarded
+    copy, fresh announcement or table replay — carries a path of more than `maxHops` agents. -/
 def C15_statement : Prop :=
   ∀ (n mh : Nat) (L : Node → List RAd) (ops : List Op), mh > 0 →
     (∀ x e, e ∈ ((run (init n mh L) ops).nodes x).entries → e.path.length ≤ mh) ∧
@@ -120,22 +142,8 @@ def C15_statement : Prop :=
 
 theorem C15_holds : C15_statement := by
   intro n mh L ops hmh
-  have hI : Inv (run (init n mh L) ops) ∧ (run (init n mh L) ops).maxHops = mh := by
-    refine ⟨?_, run_maxHops _ _⟩
-    apply run_induction (P := fun s => s.maxHops = mh → Inv s) _ ops
-    · intro _; exact inv_init n mh L
-    · intro s op h hm
-      rw [step_maxHops] at hm
-      exact inv_step (by omega) (h hm)
-    · exact run_maxHops _ _
-  obtain ⟨hI, hm⟩ := hI
-  constructor
-  · intro x e he
-    have := hI.entries x e he
-    omega
-  · intro f hf
-    have := (hI.flight f hf).2
-    omega
+  obtain ⟨h1, h2⟩ := C15_holds_mixed n (fun _ => mh) L ops
+  exact ⟨fun x e he => h1 x e he hmh, fun f hf => h2 f hf hmh⟩
 
 /-- The one-byte counts of the wire format never wrap: whatever the limit (even disabled), no
     advertisement in flight lists more than 255 agents in its path or its seen-by list.
@@ -146,7 +154,7 @@ theorem C15_no_wrap (n mh : Nat) (L : Node → List RAd) (ops : List Op) :
       f.adv.path.length ≤ 255 ∧ f.adv.seenBy.length ≤ 255 := by
   apply run_induction (P := fun s => ∀ f, f ∈ s.flight → f.adv.wd = false →
       f.adv.path.length ≤ 255 ∧ f.adv.seenBy.length ≤ 255) _ ops
-  · intro f hf; simp [init] at hf
+  · intro f hf; simp [init, initH] at hf
   · intro s op hI f hf hw
     cases flight_step hf with
     | old h => exact hI f h hw
@@ -163,7 +171,7 @@ theorem C15_no_wrap (n mh : Nat) (L : Node → List RAd) (ops : List Op) :
     | rep ord hop ha hb hl hadv =>
       have h := mem_replayAdvs hadv
       have h1 := h.plen
-      have : hopCap (tick s).maxHops ≤ 255 := by unfold hopCap maxWireAgents; split <;> omega
+      have : hopCap ((tick s).maxHops f.src) ≤ 255 := by unfold hopCap maxWireAgents; split <;> omega
       rw [h.seenBy]
       simp only [List.length_cons, List.length_nil]
       omega
